@@ -568,7 +568,12 @@ class HyReader(Reader):
         else:
             if has_debug and conversion is None:
                 conversion = "r"
-            if not self.getc() == "}":
+            c = self.getc()
+            if not c:
+                raise PrematureEndOfInput.from_reader(
+                    f"Premature end of input while reading a field of an {fstring_mode}-string", self
+                )
+            if c != "}":
                 raise LexException.from_reader(f"{fstring_mode}-string: trailing junk in field", self)
         return values + [
             self.fill_pos(FComponent((model, *format_components), conversion=conversion, expression=form_text, is_tstring=fstring_mode == "t"), start)
